@@ -232,30 +232,7 @@ def ob_addresses():
 ADJ = {"coincident": 6, "edge_adjacent": 5, "vertex_adjacent": 2}
 
 
-class _ObjNumpy:
-    """numpy facade for running table-building code on proxies: allocation ignores the float dtype (object arrays)."""
-
-    def __init__(self):
-        self._np = np
-
-    def __getattr__(self, name):
-        return getattr(self._np, name)
-
-    def empty(self, shape, dtype=None, order="C"):
-        return np.empty(shape, dtype=object)
-
-    def zeros(self, shape, dtype=None, order="C"):
-        a = np.empty(shape, dtype=object)
-        a.fill(0)
-        return a
-
-    def zeros_like(self, a, dtype=None):
-        out = np.empty(np.shape(a), dtype=object)
-        out.fill(0)
-        return out
-
-    def require(self, a, requirements=None):
-        return a
+from vlib.objnp import ObjNumpy as _ObjNumpy  # noqa: E402
 
 
 def run_duffy_symbolic(n, adjacency):
